@@ -53,8 +53,7 @@ def gen_cases(tier, seed):
                               "calls": 4, "dt": 0.05, "s": int(rng.integers(1 << 30)), "group": "en-%s-%s-%d" % (entry, wt, rep), "cost": 30})
     drv = [(None, True, True), ("forward", True, True), ("forward", False, True), ("forward", True, False), ("forward", False, False),
            ("reverse", True, True), ("reverse", False, True), ("reverse", False, False), ("reverse", True, False)]
-    if not q:
-        drv += [("2rdm", True, True)]
+    drv += [("2rdm", True, True)]
     for i, (ad, do_sr, rot) in enumerate(drv):
         for wt in (("uhf",) if q and i % 2 else ("rhf", "uhf") if not q else ("rhf",)):
             cases.append({"type": "driver", "ad_mode": ad, "do_sr": do_sr, "rot": rot, "wt": wt, "s": int(rng.integers(1 << 30)),
